@@ -3,6 +3,7 @@ package main
 import (
 	"fmt"
 	"go/ast"
+	"go/constant"
 	"go/token"
 	"go/types"
 	"strings"
@@ -381,4 +382,115 @@ func ruleR163(c *Ctx) {
 		return
 	}
 	c.Check(appended[0] == compared[0], key, fd.Pos(), "the name searched for in the list of outer names is the name that is appended", fmt.Sprintf("the list of outer names is searched for %s but %s is appended: the same outer value is recorded once per use (duplicates in OuterIdents)", compared[0], appended[0]))
+}
+
+// ---------------------------------------------------------------------------
+// R16.4 every attribute identifier is rewritten to a map access
+
+// ruleR164: in the parser, an identifier that the scope resolved to an
+// attribute of the argument map (Identifier.ThisName set) must become
+// MapAccess{Key: name, MapValue: Ident{ThisName}} wherever it occurs. Hence a
+// plain &Ident{Name: name} for a resolved, non constant identifier may only be
+// built where ThisName is known to be empty.
+func ruleR164(c *Ctx) {
+	root := c.Pkg("")
+	if root == nil {
+		c.Undecided("package parser2", token.NoPos, "not found")
+		return
+	}
+	info := root.TypesInfo
+	fd := c.FuncDecl(root, "Parser", "parseLiteral")
+	if fd == nil {
+		c.Undecided("parser2.Parser.parseLiteral", token.NoPos, "not found")
+		return
+	}
+	g := c.CFG(fd)
+	nPlain, nAccess := 0, 0
+	ast.Inspect(fd.Body, func(x ast.Node) bool {
+		cl, ok := x.(*ast.CompositeLit)
+		if !ok {
+			return true
+		}
+		if isNamed(info.TypeOf(cl), modPath, "MapAccess") {
+			// MapValue: &Ident{Name: i.ThisName}
+			if containsNode(cl, func(y ast.Node) bool {
+				s, ok := y.(*ast.SelectorExpr)
+				return ok && s.Sel.Name == "ThisName"
+			}) {
+				nAccess++
+				key := fmt.Sprintf("parser2.Parser.parseLiteral#attribute-access[%d]", nAccess)
+				// guarded by ThisName != "" and nothing that depends on the following input
+				var extra []string
+				for _, gd := range g.Guards(cl) {
+					if containsNode(gd.Cond, func(y ast.Node) bool {
+						call, ok := y.(*ast.CallExpr)
+						if !ok {
+							return false
+						}
+						sel, ok := ast.Unparen(call.Fun).(*ast.SelectorExpr)
+						return ok && (sel.Sel.Name == "Peek" || sel.Sel.Name == "Next") && isNamed(info.TypeOf(sel.X), modPath, "Tokenizer")
+					}) {
+						extra = append(extra, nodeStr(c.Fset, gd.Cond))
+					}
+				}
+				c.Check(len(extra) == 0, key, cl.Pos(), "an attribute identifier becomes a map access whatever follows it",
+					"whether an attribute identifier becomes a map access depends on the following token ("+strings.Join(extra, ", ")+"): in that position (e.g. a call of a closure valued attribute) the attribute is not found")
+			}
+			return true
+		}
+		if !isNamed(info.TypeOf(cl), modPath, "Ident") {
+			return true
+		}
+		// a plain identifier node, built where a scope lookup has succeeded?
+		var lookupVar types.Object
+		for _, gd := range g.Guards(cl) {
+			if id, ok := ast.Unparen(gd.Cond).(*ast.Ident); ok && gd.Val {
+				if as, i := definingAssign(info, fd, info.ObjectOf(id)); as != nil && i == 1 && len(as.Rhs) == 1 && len(as.Lhs) == 2 {
+					if call, ok := ast.Unparen(as.Rhs[0]).(*ast.CallExpr); ok && isNamed(info.TypeOf(call.Fun), modPath, "Identifiers") {
+						if l, ok := as.Lhs[0].(*ast.Ident); ok {
+							lookupVar = info.ObjectOf(l)
+						}
+					}
+				}
+			}
+		}
+		if lookupVar == nil {
+			return true
+		}
+		// not the MapValue of a map access
+		if kv, ok := c.Parent(c.Parent(cl)).(*ast.KeyValueExpr); ok {
+			if k, ok := kv.Key.(*ast.Ident); ok && k.Name == "MapValue" {
+				return true
+			}
+		}
+		nPlain++
+		key := fmt.Sprintf("parser2.Parser.parseLiteral#plain-identifier[%d]", nPlain)
+		okGuard := false
+		for _, gd := range g.Guards(cl) {
+			cond := ast.Unparen(gd.Cond)
+			// i.IsConst true (constants and static functions are never attributes) or i.ThisName == ""
+			if sel, ok := cond.(*ast.SelectorExpr); ok && gd.Val && sel.Sel.Name == "IsConst" {
+				if id, ok := ast.Unparen(sel.X).(*ast.Ident); ok && info.ObjectOf(id) == lookupVar {
+					okGuard = true
+				}
+			}
+			if be, ok := cond.(*ast.BinaryExpr); ok {
+				if sel, ok := ast.Unparen(be.X).(*ast.SelectorExpr); ok && sel.Sel.Name == "ThisName" {
+					if id, ok := ast.Unparen(sel.X).(*ast.Ident); ok && info.ObjectOf(id) == lookupVar {
+						if tv := info.Types[be.Y]; tv.Value != nil && tv.Value.Kind() == constant.String && constant.StringVal(tv.Value) == "" {
+							if (be.Op == token.EQL && gd.Val) || (be.Op == token.NEQ && !gd.Val) {
+								okGuard = true
+							}
+						}
+					}
+				}
+			}
+		}
+		c.Check(okGuard, key, cl.Pos(), "a plain identifier node is built only for constants/static functions or where ThisName is empty",
+			"a plain identifier node is built for a resolved identifier although its ThisName may be set: an attribute of the argument map in this position is not rewritten to a map access, the generator then reports 'not found'")
+		return true
+	})
+	if nAccess == 0 || nPlain == 0 {
+		c.Undecided("parser2.Parser.parseLiteral#identifier-translation", fd.Pos(), "expected the map access and the plain identifier nodes (found %d, %d)", nAccess, nPlain)
+	}
 }
